@@ -89,7 +89,15 @@ pub fn run_req(args: &Args, mut out: Out) {
                     v.push_str(*[";", "; ", " ; ", ";;", "; ;"].choose(&mut r).unwrap());
                 }
                 let name = *names.choose(&mut r).unwrap();
-                let value: String = (0..r.gen_range(0..8)).map(|_| *octet.choose(&mut r).unwrap() as char).collect();
+                let mut value: String = (0..r.gen_range(0..8)).map(|_| *octet.choose(&mut r).unwrap() as char).collect();
+                // RFC 6265 cookie-value = *cookie-octet / ( DQUOTE *cookie-octet DQUOTE ): the quotes are part of the value
+                match r.gen_range(0..12) {
+                    0 | 1 => value = format!("\"{value}\""),
+                    2 => value = "\"\"".into(),
+                    3 => value = format!("\"{value}"),
+                    4 => value = format!("{value}\""),
+                    _ => {}
+                }
                 let drop_eq = r.gen_bool(0.04);
                 if drop_eq {
                     v.push_str(name);
